@@ -273,7 +273,27 @@ def run_shard(spec, rec):
             _base_rejected(rec, spec['family'], base, e)
             return
         byname = _name_ranges(rows)
+        # companion totals: inputs named 'Total ...' supersede itemised inputs of their module in the calculation; stating one must not
+        # switch off the range check of anything else.  One outside probe per parameter is repeated with every total of the family
+        # stated in range (the totals alone must be an accepted input).
+        totals, seen_t = [], set()
+        for c in rows:
+            if c['kind'] == 'floatParameter' and c['name'].startswith('Total ') and c['name'] not in seen_t and \
+                    abs(float(c['min'])) < 1e30 and abs(float(c['max'])) < 1e30:
+                seen_t.add(c['name'])
+                totals.append((c['name'], gen.fmt(float(c['min']) + (float(c['max']) - float(c['min'])) * 0.025)))
+        if totals:
+            pt = base
+            for cn, cv in totals:
+                pt = gen.set_param(pt, cn, cv)
+            if sim.read_only(sim.render(pt))[1] is not None:
+                rec.count('companion_totals_rejected_on_their_own')
+                totals = []
         for r in rows:
+            rejects = [pv for pv in _probe_values(r) if pv[2] == 'reject' and not pv[0].endswith('_ulp')]
+            if totals and rejects and r['name'] not in seen_t:
+                kind, val, expect = rejects[-1]
+                _check_probe(rec, spec['family'], base, byname, r, kind + '+totals', val, expect, context=tuple(totals))
             for kind, val, expect in _probe_values(r):
                 _check_probe(rec, spec['family'], base, byname, r, kind, val, expect)
                 for alias in ALIASES.get(r['name'], []):
@@ -525,7 +545,7 @@ def evaluate(case, rec):
     drop = {name, case.get('written_as')} | {c[0] for c in ctx}
     fam_base = families().get(case['family'], [])
     base = [p for p in case['params'] if p[0] not in drop] + [p for p in fam_base if p[0] in drop - {case.get('written_as')}]
-    kind = kind.replace('@alias', '')
+    kind = kind.replace('@alias', '').replace('+totals', '')
     rows = _family_rows(base)
     byname = _name_ranges(rows)
     rs = [x for x in rows if x['name'] == name and x['cls'] == case.get('cls', x['cls'])] or \
